@@ -427,6 +427,15 @@ func P5() []*Program {
 	out = append(out, prog("P5/many-refs", append([]*Packet{Root("Msg", Ob("Detail", "D1"), Ob("Detail", "D2"), Rep(Ob("Alpha", "As")), Rep(Ob("Beta", "Bs")), Ob("Gamma", ""))}, common()...)...))
 	out = append(out, prog("P5/match-in-sub", append([]*Packet{Root("Msg", Sc("u8", "Ver"), Ob("Frame", "")),
 		Pk("Frame", Ds("Kind"), Mt("Kind", "Body", K("Alpha", `"A"`), K("Beta", `"B"`, `"C"`)))}, common()...)...))
+	// a match table inside a payload packet that is declared BEFORE its own alternatives (top-down order), and
+	// whose match field has the same name as the root's (whatever is named after the field, or needs the
+	// alternatives defined first, meets both)
+	out = append(out, prog("P5/nested-table-top-down", Root("Msg", Sc("u8", "Kind"), Mt("Kind", "Body", K("Admin", "1"), K("Data", "2")), Sc("u8", "Tail")),
+		Pk("Admin", Sc("u8", "Sub"), Mt("Sub", "Body", K("Reset", "1"), K("Logout", "2", "5"))), Pk("Data", Sc("u16", "X")),
+		Pk("Reset", Sc("u8", "R")), Pk("Logout", Ds("Why"))))
+	out = append(out, prog("P5/same-match-name-in-object", Root("Msg", Sc("u8", "Kind"), Ob("Inner", "First"), Mt("Kind", "Body", K("Alpha", "1"), K("Beta", "2"))),
+		Pk("Inner", Sc("u16", "Sel"), Mt("Sel", "Body", K("Beta", "7"), K("Gamma", "8"))),
+		Pk("Alpha", Sc("u32", "A1"), Ds("A2")), Pk("Beta", Sc("u8", "B1")), Pk("Gamma", Rep(Sc("u16", "G1")))))
 	out = append(out, prog("P5/same-inline-name", Root("Msg", Ob("Buy", ""), Ob("Sell", "")),
 		Pk("Buy", Sc("u8", "B"), In("Leg", Sc("u16", "Px"), Ds("Sym"))), Pk("Sell", In("Leg", Sc("u32", "Qty")), Sc("u8", "S"))))
 	out = append(out, prog("P5/three-match-keys", append([]*Packet{Root("Msg", Sc("u16", "KindA"), Sc("u8", "KindB"), Ds("KindC"),
